@@ -50,6 +50,12 @@ def main() -> int:
         st = common.lean_pipeline(prop, clean=False)
     ctx.lean = st
     ctx.use_model = st.build_ok and st.extract_ok
+    import fingerprint
+    edited = fingerprint.changed_anchors(prop, common.REPO)
+    ctx.extra["anchor_files_edited_since_last_validation"] = edited
+    if edited:
+        print(f"ANCHOR-EDITED {prop}: {', '.join(edited)} (not an alarm: search budget raised)")
+        ctx.budget = 3.0
     if not st.proof_ok:
         print(f"PROOF-BROKEN {prop}: {st.summary()}")
         ctx.budget = 6.0   # intensified failing-input search
@@ -63,7 +69,7 @@ def main() -> int:
     # 4-5: known-finding witnesses + campaign
     try:
         mod.run(ctx)
-        if ctx.disagreements and not ctx.violations and ctx.budget == 1.0:
+        if ctx.disagreements and not ctx.violations and ctx.budget < 6.0:
             print(f"CORRESPONDENCE-BROKEN {prop}: {ctx.disagreements[0]['what']}")
             ctx.budget = 6.0
             ctx.use_model_saved = ctx.use_model
